@@ -418,6 +418,13 @@ def set_process_mode(mode):
     if mode == "debug":
         # ... and Python warnings issued from inside the library are errors (as under -W error), other warnings stay silent
         warnings.filterwarnings("error", module=r"rv(\.|$)")
+        try:
+            # ... and so are warnings of the library's own categories, whoever they are attributed to (stacklevel)
+            import rv.errors as _rve
+
+            warnings.filterwarnings("error", category=_rve.RadiantVoicesWarning)
+        except Exception:  # noqa: BLE001
+            pass
         class H(logging.Handler):
             def emit(self, record):
                 try:
